@@ -23,7 +23,8 @@ sim::Plan generate(const std::string&, uint64_t subseed, const sim::Tier& tier) 
   // swarm: which op kinds are enabled in this run
   bool en_nb = rng.chance(3, 4), en_wb = rng.chance(3, 4), en_simplex = rng.chance(3, 4), en_rstar = rng.chance(4, 5), en_contract = rng.chance(3, 4), en_addv = rng.chance(1, 2);
   if (!en_nb && !en_wb) en_wb = true;
-  int init = (int)rng.below(4);  // 0: start from nv isolated vertices; 1: constructor from a simplex list; 2: few vertices + add_vertex ops; 3: as 0
+  int init = (int)rng.below(5);  // 0: start from nv isolated vertices; 1: constructor from a simplex list; 2: few vertices + add_vertex ops; 3: as 0; 4: boundaries of large simplices (blockers of dimension >= 4)
+  if (init == 4 && nv < 5) { nv = (int)rng.range(5, tier.thorough() ? 8 : 7); p.seti("nv", nv); }
   p.seti("init", init);
   p.seti("init_seed", (long)rng.below(1 << 30));
   p.seti("init_density", rng.range(1, 9));
@@ -31,7 +32,7 @@ sim::Plan generate(const std::string&, uint64_t subseed, const sim::Tier& tier) 
     int k = (int)rng.below(20);
     if (k < 7) { if (rng.chance(1, 2) ? en_nb : !en_wb) p.add(0, "adde", {(long)rng.below(64), (long)rng.below(64), 1}); else p.add(0, "adde", {(long)rng.below(64), (long)rng.below(64), 0}); }
     else if (k < 10) { if (en_simplex) p.add(0, "adds", {(long)rng.below(1 << nv)}); else p.add(0, "adde", {(long)rng.below(64), (long)rng.below(64), en_wb ? 0 : 1}); }
-    else if (k < 14) { if (en_rstar) p.add(1, "rstar", {(long)rng.below(4096), (long)rng.below(3), (long)rng.below(3)}); }
+    else if (k < 14) { if (en_rstar) p.add(1, "rstar", {(long)rng.below(4096), (long)rng.below(init == 4 ? 5 : 4), (long)rng.below(3)}); }
     else if (k < 18) { if (en_contract) p.add(2, "contract", {(long)rng.below(4096), (long)rng.below(2), (long)rng.below(2)}); }
     else if (en_addv) p.add(0, "addv");
     if (rng.below(audit_every) == 0) p.add(3, "audit", {(long)rng.below(1 << 20)});
@@ -137,6 +138,21 @@ void execute(const sim::Plan& p, sim::Run& r) {
     s.c = new SB(list.begin(), list.end(), false);
     s.handles = nv;
     r.count("probe.init_from_list");
+  } else if (init == 4) {
+    // boundaries of one or two large simplices: every proper face present, the simplex itself a blocker of dimension >= 4
+    sim::Rng g((uint64_t)p.geti("init_seed"));
+    for (int v = 0; v < nv; ++v) s.m.insert_one(1u << v, 0);
+    int big = (int)g.range(1, 2);
+    for (int t = 0; t < big; ++t) {
+      Mask x = (1u << nv) - 1; int want = (int)g.range(5, nv);
+      while (model::popcount(x) > want) { int v = (int)g.below(nv); x &= ~(1u << v); }
+      for (int v = 0; v < nv; ++v) if (x >> v & 1) s.m.insert_with_faces(x & ~(1u << v), 0);
+    }
+    std::vector<Simplex> list; for (Mask x : s.m.simplices()) list.push_back(to_simplex(x));
+    g.shuffle(list);
+    s.c = new SB(list.begin(), list.end(), false);
+    s.handles = nv;
+    r.count("probe.init_boundary_of_large_simplex");
   } else {
     int start = init == 2 ? std::min(nv, 2) : nv;
     s.c = new SB(start);
@@ -181,7 +197,7 @@ void execute(const sim::Plan& p, sim::Run& r) {
       auto all = k.simplices();
       // bias: arg1 selects the dimension class (0: vertex, 1: edge, 2: any)
       std::vector<Mask> cand;
-      for (Mask x : all) { int d = model::dim_of(x); if (op.arg(1) == 2 || (op.arg(1) == 0 && d == 0) || (op.arg(1) == 1 && d == 1)) cand.push_back(x); }
+      for (Mask x : all) { int d = model::dim_of(x); if (op.arg(1) == 2 || (op.arg(1) == 0 && d == 0) || (op.arg(1) == 1 && d == 1) || (op.arg(1) >= 3 && d >= 2)) cand.push_back(x); }
       if (cand.empty()) cand = all;
       if (cand.empty()) { r.skipped(); continue; }
       Mask x = cand[op.arg(0) % cand.size()];
@@ -191,6 +207,7 @@ void execute(const sim::Plan& p, sim::Run& r) {
         bool pattern = false; for (Mask b : minimal_nonfaces(k)) if (model::subset(x, b) && model::dim_of(b) - d - 1 >= 2) pattern = true;
         if (pattern) { r.count("probe.remove_star_below_blocker"); if (r.kf("C17-KF1")) { r.skipped(); continue; } }
       }
+      if (d >= 2) { for (Mask b : minimal_nonfaces(k)) if (model::subset(x, b) && model::dim_of(b) - d - 1 >= 2) { r.count("probe.remove_star_of_simplex_inside_large_blocker"); break; } }
       int how = (int)op.arg(2);
       if (d == 0 && how != 2) c.remove_star(Vh(__builtin_ctz(x)));
       else if (d == 1 && how == 0) c.remove_star(Vh(__builtin_ctz(x)), Vh(31 - __builtin_clz(x)));
